@@ -65,7 +65,7 @@ func ruleForceDurationBoundaryTests(p *Prog, l *Ledger, tier string) {
 	}
 	d := ssa.Value(fn.Params[1])
 	n := 0
-	for _, b := range fn.Blocks {
+	for _, b := range p.helperBlocks(fn) {
 		for _, ins := range b.Instrs {
 			bo, ok := ins.(*ssa.BinOp)
 			if !ok {
@@ -74,9 +74,9 @@ func ruleForceDurationBoundaryTests(p *Prog, l *Ledger, tier string) {
 			op := bo.Op
 			var fld string
 			switch {
-			case bo.Y == d:
+			case p.rootValue(fn, bo.Y) == d:
 				_, fld, _ = loadedField(stripAllConv(bo.X))
-			case bo.X == d:
+			case p.rootValue(fn, bo.X) == d:
 				_, fld, _ = loadedField(stripAllConv(bo.Y))
 				op = map[token.Token]token.Token{token.LSS: token.GTR, token.LEQ: token.GEQ, token.GTR: token.LSS, token.GEQ: token.LEQ}[op]
 			}
